@@ -480,6 +480,17 @@ func modeC12(thorough bool) {
 			in.send(c.lst, c.src, mk(true, true), 4*time.Second, hdr)
 			in.send(c.lst, c.src, mk(false, false), 4*time.Second, hdr)
 		})
+		// one after the other (recycled request state is taken over by the next request): a client whose address
+		// is known, then a DoH client that sends no client-address header - its address is unknown, its query
+		// goes upstream without ECS
+		for k := 0; k < 24; k++ {
+			if k%3 == 2 {
+				in.send("http", "", mkq(uniq()+".r0t60d0.z3.test."), 3*time.Second, map[string]string{"X-Client": "203.0.113.77"})
+			} else {
+				in.send([]string{"udp", "tcp"}[k%3], "127.0.1.1", mkq(uniq()+".r0t60d0.z3.test."), 3*time.Second, nil)
+			}
+			in.send([]string{"http", "fasthttp"}[k%2], "", mkq(uniq()+".r0t60d0.z3.test."), 3*time.Second, nil)
+		}
 		// unsupported queries carrying an OPT, and ones without
 		for _, lst := range []string{"udp", "tcp"} {
 			q := mkq(uniq() + ".r0t60d0.z1.test.")
